@@ -154,6 +154,12 @@ func check(c Case) error {
 		}
 		got = primers.CreateBarcodesWithBannedSequences(c.Length, c.Order, c.Bans, funcs)
 	}
+	return validateBarcodes(c, seq, got, funcs, true)
+}
+
+// validateBarcodes judges one barcode list; with again set it then writes into the list (it belongs to the caller:
+// filtered in place, sorted, elements overwritten), asks for the same list once more and judges that one too.
+func validateBarcodes(c Case, seq string, got []string, funcs []func(string) bool, again bool) error {
 	words := map[string]int{}
 	for i, b := range got {
 		if len(b) != c.Length {
@@ -183,6 +189,20 @@ func check(c Case) error {
 				return vk.Errf("barcode %d %q contains the word %q twice", i, b, w)
 			}
 			words[w] = i
+		}
+	}
+	if again && len(got) > 0 {
+		for i := range got {
+			got[i] = got[0]
+		}
+		var second []string
+		if len(c.Bans) == 0 && len(c.Filters) == 0 {
+			second = primers.CreateBarcodes(c.Length, c.Order)
+		} else {
+			second = primers.CreateBarcodesWithBannedSequences(c.Length, c.Order, c.Bans, funcs)
+		}
+		if err := validateBarcodes(c, seq, second, funcs, false); err != nil {
+			return fmt.Errorf("the same call a second time, after the caller had overwritten the list the first returned: %v", err)
 		}
 	}
 	return nil
